@@ -11,6 +11,10 @@ Line protocol of component `recency` (C12):
 * `adv <ticks>` → `ok`
 * `observe` → the registry after the observation: sorted `<kind>/<key hex>/<generation>/<value>`, `.` if empty
 * `render` → the same observation, without generations (what an exposition text can show)
+* `del <c|g|h> <key hex>` → `1` / `0`: `Registry::delete_*` from outside `Recency`; was the metric registered?
+* `clear` → `ok`: `Registry::clear`
+* `stale <c|g|h> <key hex> <generation>` → `<answer 1|0>/<registered afterwards 1|0>`: `should_store_*` with the
+  generation of a handle from a second observer's snapshot; `stalekeep …` → the answer only
 
 values: counter `n`, gauge `v`, histogram `count+sum`.
 -/
@@ -78,6 +82,25 @@ def handle (st : Option St) (args : List String) : Option (Option St × String) 
     | "render", [] =>
       let s' := step s .observe
       pure (some s', showRegistry false s')
+    | "del", [k, key] => do
+      let k ← kindTok k
+      let key ← unhexChars key
+      pure (some (xstep s (.del k key)), if (deleteMetric s.metrics (k, key)).2 then "1" else "0")
+    | "clear", [] => pure (some (xstep s .clear), "ok")
+    | "stale", [k, key, g] => do
+      let k ← kindTok k
+      let key ← unhexChars key
+      let g ← g.toNat?
+      let s' := xstep s (.stale k key g)
+      let keep := if (shouldStore s k key g).2 then "1" else "0"
+      let reg := if (lookup s'.metrics (k, key)).isSome then "1" else "0"
+      pure (some s', s!"{keep}/{reg}")
+    | "stalekeep", [k, key, g] => do
+      -- the same operation where only the answer can be observed (the exporter does not expose its registry)
+      let k ← kindTok k
+      let key ← unhexChars key
+      let g ← g.toNat?
+      pure (some (xstep s (.stale k key g)), if (shouldStore s k key g).2 then "1" else "0")
     | _, _ => none
   | _ => none
 
